@@ -7,7 +7,8 @@ def replay_index(cmd, variant="vh"):
     def f(rp):
         if "index" not in rp:
             return None
-        return dict(variant=variant, argv=[cmd, "-seed", str(rp.get("seed", 1)), "-tier", rp.get("tier", "quick"), "-replay", str(rp["index"])])
+        return dict(variant=variant, env={"TZ": "UTC"},
+                    argv=[cmd, "-seed", str(rp.get("seed", 1)), "-tier", rp.get("tier", "quick"), "-replay", str(rp["index"])])
     return f
 
 
@@ -245,3 +246,22 @@ CHECKS["C08"] = dict(
     require=dict(events_compared=1000),
 )
 del CHECKS["C08"]["replay"]
+
+CHECKS["C16"] = dict(
+    level="exploration",
+    level_text=("reference-renderer monitor: events emitted by the JSON logger for seeded programs (every value type, nesting, duplicate keys, the empty "
+                "key) are rendered by ConsoleWriter under random PartsOrder/PartsExclude/FieldsOrder/FieldsExclude/TimeFormat/TimeLocation/"
+                "TimeFieldFormat configurations and compared byte for byte with an independent renderer of the statement (strings verbatim or "
+                "strconv.Quote'd, numbers with their exact digits, other values parsed back and compared semantically); (n, err) and determinism of two "
+                "renderings are checked too."),
+    technique="runtime monitoring: independent reference renderer compared with ConsoleWriter output over seeded events x configurations",
+    stages=lambda tier: [dict(variant="vh", cmd="c16", shards=16, timeout=3000, env={"TZ": "UTC"})],
+    rule=("one case = one seeded program's events x one random console configuration, each event rendered twice; non-trivial = at least one rendering "
+          "was compared; distinct by hash of (configuration, console bytes)"),
+    assumptions=["field names are drawn from [A-Za-z0-9_.-]* (incl. the empty name) plus two multi-byte letters and never equal a part name",
+                 "events carry a timestamp and a standard level; no caller part; FieldsOrder has no duplicates; PartsOrder only names the four standard parts",
+                 "the message part is written verbatim, so a message containing a newline yields a multi-line record (not treated as a violation)",
+                 "with FieldsOrder set the error field may sit anywhere (unspecified by the statement)"],
+    replay=replay_index("c16"),
+    require=dict(renderings_checked=1000),
+)
